@@ -63,6 +63,26 @@ J gen_seq(const std::string& prop, uint64_t run_seed, const std::string& tier) {
         uint64_t want; switch (g.below(6)) { case 0: want = L > 1 ? L - 1 : 1; break; case 1: case 2: want = L; break; case 3: case 4: want = (uint64_t)L + 1; break; default: want = (uint64_t)L + g.below(5); }
         uint64_t depth = want > ll ? want - ll : (ll ? 0 : 1); unsigned lv = 0;
         nest_chain(kinds, (size_t)depth, lk, bytes, &lv); if (L > 64) deep_item = true;
+      } else if (g.chance(1, 10)) {   // a chunked string with an intruder: something that is not a definite chunk of its own kind between (or instead of) the chunks
+        bool text = g.chance(1, 2); uint8_t open = text ? 0x7f : 0x5f, chunk = text ? 0x60 : 0x40, other = text ? 0x40 : 0x60;
+        unsigned nw = (unsigned)g.below(3); std::vector<uint8_t> closers;
+        for (unsigned k = 0; k < nw; k++) switch (g.below(4)) { case 0: bytes.push_back(0x81); break; case 1: bytes.push_back(0x9f); closers.push_back(0xff); break; case 2: bytes.push_back(0xc1); break; default: bytes.push_back(0xa1); bytes.push_back(0x00); }
+        bytes.push_back(open);
+        auto put_chunk = [&](uint8_t base) { unsigned n = (unsigned)g.below(4); bytes.push_back((uint8_t)(base + n)); for (unsigned q = 0; q < n; q++) bytes.push_back((uint8_t)('a' + g.below(26))); };
+        unsigned before = (unsigned)g.below(3); for (unsigned k = 0; k < before; k++) put_chunk(chunk);
+        switch (g.below(10)) {
+          case 0: bytes.push_back((uint8_t)g.below(24)); break;                                   // small unsigned
+          case 1: bytes.push_back((uint8_t)(0x20 + g.below(24))); break;                          // small negative
+          case 2: put_chunk(other); break;                                                         // definite string of the other kind
+          case 3: bytes.push_back(open); { unsigned m = (unsigned)g.below(3); for (unsigned k = 0; k < m; k++) put_chunk(chunk); } bytes.push_back(0xff); break;   // chunked string of the same kind, closed
+          case 4: bytes.push_back(text ? 0x5f : 0x7f); if (g.chance(1, 2)) put_chunk(other); bytes.push_back(0xff); break;   // chunked string of the other kind
+          case 5: bytes.push_back(g.chance(1, 2) ? 0x80 : 0xa0); break;                           // empty container
+          case 6: bytes.push_back(0x81); put_chunk(chunk); break;                                 // array holding a would-be chunk
+          case 7: bytes.push_back(0xc0); put_chunk(chunk); break;                                 // tagged would-be chunk
+          case 8: bytes.push_back(g.chance(1, 2) ? 0xf6 : 0xf4); break;                           // null / false
+          default: bytes.push_back(0xf9); bytes.push_back(0x3c); bytes.push_back(0x00);           // half float
+        }
+        if (g.chance(2, 3)) { unsigned after = (unsigned)g.below(3); for (unsigned k = 0; k < after; k++) put_chunk(chunk); bytes.push_back(0xff); for (size_t k = closers.size(); k-- > 0;) bytes.push_back(closers[k]); }
       } else if (i + 1 == nitems && g.chance(1, 4)) {   // an item that closes with several adjacent breaks
         MV outer; outer.kind = g.chance(1, 2) ? MK_ARRAY : MK_MAP; outer.definite = false;
         unsigned pre = (unsigned)g.below(3); for (unsigned k = 0; k < pre * (outer.kind == MK_MAP ? 2u : 1u); k++) outer.kids.push_back(gen_mv(g, gp, 2));
